@@ -143,8 +143,10 @@ class Ctx(object):
             self.maxerr[check] = v
 
     def compare(self, check, got, ref, tol, features=None, scale=None, detail=None,
-                charact=None, floor=0.0):
-        """max|got-ref| <= tol * max(scale or |ref|_inf, floor, tiny). Returns bool."""
+                charact=None, floor=0.0, pointwise=None):
+        """max|got-ref| <= tol * max(scale or |ref|_inf, floor, tiny). Returns bool.
+        pointwise=f: each entry is judged relative to max(|ref_i|, f*|ref|_inf) instead (spectra
+        spanning many decades: low-power bins count, rounding of the largest values does not)."""
         try:
             g = np.asarray(got)
             r = np.asarray(ref)
@@ -163,7 +165,11 @@ class Ctx(object):
                                      features, charact)
             s = scale if scale is not None else float(np.max(np.abs(r)))
             s = max(s, floor, 1e-300)
-            e = float(np.max(np.abs(g - r))) / s
+            if pointwise is not None:
+                den = np.maximum(np.abs(r), pointwise * s)
+                e = float(np.max(np.abs(g - r) / den))
+            else:
+                e = float(np.max(np.abs(g - r))) / s
         except Exception as exc:  # malformed output is a failure of the code under test
             return self.fail(check, dict(detail or {}, why='uncomparable', exc=repr(exc)),
                              features, charact)
@@ -171,7 +177,8 @@ class Ctx(object):
         if e <= tol:
             self.ok(check)
             return True
-        idx = int(np.argmax(np.abs(g - r)))
+        idx = int(np.argmax(np.abs(g - r) / np.maximum(np.abs(r), pointwise * s))) if pointwise is not None \
+            else int(np.argmax(np.abs(g - r)))
         d = dict(detail or {}, rel_err=e, tol=tol, worst_index=idx,
                  got=g.ravel()[idx], ref=r.ravel()[idx], got_head=g.ravel()[:6], ref_head=r.ravel()[:6])
         return self.fail(check, d, features, charact)
